@@ -44,7 +44,7 @@ def BOUNDS(tier):
 
 def REQUIRED_COVER(tier):
     return {'kind:int', 'kind:ext_in', 'kind:ext_out', 'init:none', 'init:all5', 'init:3refs', 'extra:2', 'body:inline', 'body:ref', 'init:inline', 'init:ref', 'placement:alt',
-            'anycast', 'wrapper:StateInit', 'wrapper:CurrencyCollection', 'wrapper:WalletV3Data', 'wrapper:WalletV4Data', 'wrapper:NftItemData', 'wrapper:HashUpdate',
+            'anycast', 'wrapper:StateInit', 'wrapper:CurrencyCollection', 'wrapper:WalletV3Data', 'wrapper:WalletV4Data', 'wrapper:NftItemData', 'wrapper:NftItemSaleData', 'wrapper:NftItemSaleFees', 'wrapper:HighloadWalletData', 'wrapper:WalletMessage', 'wrapper:HashUpdate',
             'wrapper:TickTock', 'wrapper:AccountStatus', 'tight:refs', 'isolation', 'edit-history'}
 
 
@@ -272,6 +272,24 @@ def lm_lib(m):
     else:
         info = ('ext_out', la(i.src), la(i.dest), i.created_lt, i.created_at)
     return (info, lm_init_lib(m.init), (m.body.bits.to01(), tuple(r.hash.hex() for r in m.body.refs)))
+
+
+def lm_lib_addr(a):
+    from pytoniq_core.boc import Address
+    if a is None:
+        return ('none',)
+    if isinstance(a, Address):
+        ac = a.anycast
+        return ('std', a.wc, a.hash_part.hex(), (ac.depth, ac.rewrite_pfx) if ac is not None else None)
+    return ('ext', a.len, a.external_address if a.external_address is not None else 0)
+
+
+def spec_addr(a, seed):
+    if a[0] == 'none':
+        return ('none',)
+    if a[0] == 'ext':
+        return ('ext', a[2], a[1])
+    return ('std', a[1], acct(a[2], seed).hex(), tuple(a[3]) if a[3] else None)
 
 
 def lm_init_lib(s):
@@ -502,6 +520,60 @@ def case_wrappers(rec):
             bits = RB.uint(idx, 64) + enc_addr(ca, seed) + enc_addr(oa, seed)
             check('NftItemData', (idx, ca[0], oa[0]), NftItemData(idx, lib_addr(ca, seed), lib_addr(oa, seed), cell_to_lib(CODE_CELLS[1])), bits, (CODE_CELLS[1],), NftItemData.deserialize,
                   lambda x, idx=idx: x.index == idx and x.content.hash == CODE_CELLS[1].hash())
+    # addresses handed over in their text form (the constructors accept str): same cell as with Address objects
+    from pytoniq_core.tlb.custom.nft import NftItemSaleData as _Sale, NftItemSaleFees as _Fees
+    ca, oa = ['std', -1, 'n', [3, 5]], A1
+    bits = RB.uint(7, 64) + enc_addr(ca, seed) + enc_addr(oa, seed)
+    check('NftItemData', ('owner-as-text', 7), NftItemData(7, lib_addr(ca, seed), lib_addr(oa, seed).to_str(), cell_to_lib(CODE_CELLS[1])), bits, (CODE_CELLS[1],), NftItemData.deserialize,
+          lambda x: x.index == 7 and lm_lib_addr(x.collection_address) == spec_addr(ca, seed) and lm_lib_addr(x.owner_address) == spec_addr(oa, seed))
+    bits = RB.uint(8, 64) + enc_addr(A0, seed) + enc_addr(ca, seed)
+    check('NftItemData', ('collection-as-text', 8), NftItemData(8, lib_addr(A0, seed).to_str(), lib_addr(ca, seed), cell_to_lib(CODE_CELLS[1])), bits, (CODE_CELLS[1],), NftItemData.deserialize,
+          lambda x: x.index == 8 and lm_lib_addr(x.collection_address) == spec_addr(A0, seed) and lm_lib_addr(x.owner_address) == spec_addr(ca, seed))
+    fb = enc_addr(A0, seed) + RB.coins(1) + enc_addr(A1, seed) + RB.coins(2)
+    sale_bits = '1' + RB.uint(5, 32) + enc_addr(A0, seed) + enc_addr(A1, seed) + enc_addr(ca, seed) + RB.coins(9) + '0'
+    check('NftItemSaleData', ('addresses-as-text',), _Sale(True, 5, lib_addr(A0, seed).to_str(), lib_addr(A1, seed).to_str(), lib_addr(ca, seed), 9,
+                                                           _Fees(lib_addr(A0, seed), 1, lib_addr(A1, seed), 2), False), sale_bits, (RC.RCell(fb),), _Sale.deserialize,
+          lambda x: lm_lib_addr(x.nft_owner_address) == spec_addr(ca, seed) and lm_lib_addr(x.marketplace_address) == spec_addr(A0, seed))
+    # the remaining wallet-data / NFT-data wrappers (schemas from their doc strings)
+    from pytoniq_core.tlb.custom.wallet import HighloadWalletData, WalletMessage
+    from pytoniq_core.tlb.custom.nft import NftItemSaleFees, NftItemSaleData
+    addr_eq = lambda a, spec: lm_lib_addr(a) == spec_addr(spec, seed)      # noqa
+    for fa, fee, ra, roy in ((A0, 0, A1, 1), (['none'], (1 << 120) - 1, ['std', -1, 'n', [3, 5]], 255), (A1, 256, ['none'], 0)):
+        fbits = enc_addr(fa, seed) + RB.coins(fee) + enc_addr(ra, seed) + RB.coins(roy)
+        mkfees = lambda fa=fa, fee=fee, ra=ra, roy=roy: NftItemSaleFees(lib_addr(fa, seed), fee, lib_addr(ra, seed), roy)     # noqa
+        check('NftItemSaleFees', (fa[0], fee, ra[0], roy), mkfees(), fbits, (), NftItemSaleFees.deserialize,
+              lambda x, fa=fa, fee=fee, ra=ra, roy=roy: (x.marketplace_fee, x.royalty_amount) == (fee, roy) and addr_eq(x.marketplace_fee_address, fa) and addr_eq(x.royalty_address, ra))
+        for complete, created, price, ext in ((False, 0, 0, False), (True, (1 << 32) - 1, (1 << 120) - 1, True), (True, 1, 256, False)):
+            bits = str(int(complete)) + RB.uint(created, 32) + enc_addr(A0, seed) + enc_addr(fa, seed) + enc_addr(ra, seed) + RB.coins(price) + str(int(ext))
+            check('NftItemSaleData', (complete, created, price, ext, fa[0], ra[0]),
+                  NftItemSaleData(complete, created, lib_addr(A0, seed), lib_addr(fa, seed), lib_addr(ra, seed), price, mkfees(), ext), bits, (RC.RCell(fbits),), NftItemSaleData.deserialize,
+                  lambda x, complete=complete, created=created, price=price, ext=ext, fa=fa, ra=ra, fee=fee: (bool(x.is_complete), x.created_at, x.full_price, bool(x.can_deploy_by_external)) ==
+                  (complete, created, price, ext) and addr_eq(x.nft_address, fa) and addr_eq(x.nft_owner_address, ra) and x.fees_cell.marketplace_fee == fee)
+    # wallet_message$_ send_mode:uint8 message:^MessageAny ; highload_wallet_data#_ wallet_id:uint32 last_cleaned:uint64 public_key:bits256
+    # old_queries:(HashmapE 64 WalletMessage)
+    msgs = []
+    for hi, bb in ((0, 8), (5, 0), (11, 40)):
+        h = headers()[hi]
+        body = body_cell(bb, 0, seed)
+        mcell = dict(placements(h, None, body, seed))
+        mref = next(iter(mcell.values()))
+        msgs.append((lib_message(h, None, body, seed), lm_spec(h, None, body, seed)))
+    for mode, (m, mspec) in zip((0, 3, 255), msgs):
+        mc = from_lib(m.serialize())
+        check('WalletMessage', mode, WalletMessage(mode, m), RB.uint(mode, 8), (mc,), WalletMessage.deserialize,
+              lambda x, mode=mode, mspec=mspec: x is not None and x.send_mode == mode and lm_lib(x.message) == mspec)
+    for wid, lc in ((0, 0), (698983191, (1 << 64) - 1)):
+        for nq in (0, 1, 2):
+            queries = {((1 << 63) + 7 * q if q else 0): WalletMessage(3 + q, msgs[q][0]) for q in range(nq)}
+            base = RB.uint(wid, 32) + RB.uint(lc, 64) + RB.bytes_bits(pk)
+            if nq:
+                root = RH.build({k: (RB.uint(w.send_mode, 8), (from_lib(w.message.serialize()),)) for k, w in queries.items()}, 64)
+                bits, refs = base + '1', (root,)
+            else:
+                bits, refs = base + '0', ()
+            check('HighloadWalletData', (wid, lc, nq), HighloadWalletData(wid, lc, pk, queries if nq else None), bits, refs, HighloadWalletData.deserialize,
+                  lambda x, wid=wid, lc=lc, queries=queries: (x.wallet_id, x.last_cleaned, x.public_key) == (wid, lc, pk) and
+                  {k: (v.send_mode, lm_lib(v.message)) for k, v in (x.old_queries or {}).items()} == {k: (v.send_mode, lm_lib(v.message)) for k, v in queries.items()})
     for oh, nh in ((bytes(32), b'\xff' * 32), (filler(seed, 'c15-oh', 32), filler(seed, 'c15-nh', 32))):
         check('HashUpdate', oh[:2].hex(), HashUpdate(oh, nh), '01110010' + RB.bytes_bits(oh) + RB.bytes_bits(nh), (), HashUpdate.deserialize, lambda x, oh=oh, nh=nh: (x.old_hash, x.new_hash) == (oh, nh))
     rec.sample({'wrapper': 'CurrencyCollection', 'grams': 256, 'extra': {5: 256}, 'reference_bits': RB.coins(256) + '1'})
